@@ -4,6 +4,8 @@ import (
 	"encoding/json"
 	"flag"
 	"fmt"
+	"io"
+	"log"
 	"os"
 	"path/filepath"
 	"runtime"
@@ -37,6 +39,9 @@ func RaceMode() bool { return *fRace }
 func WorkerMain(t *testing.T) {
 	if *fProp == "" && *fPlan == "" {
 		t.Skip("simulation worker: no -sim.prop / -sim.plan given")
+	}
+	if os.Getenv("VERIF_LOG") == "" {
+		log.SetOutput(io.Discard)
 	}
 	out := os.Stdout
 	if *fOut != "" {
@@ -136,7 +141,15 @@ func ExecPlan(t *testing.T, eng Engine, p *Plan, work string) (o *Outcome) {
 			s.StickyPermille = p.Sticky
 			rc.Sched = s
 			defer simcore.Uninstall()
-			res := eng.Exec(rc, p)
+			var res *Outcome
+			func() {
+				defer func() {
+					if r := recover(); r != nil {
+						res = &Outcome{Inconclusive: "harness panic: " + fmt.Sprint(r) + "\n" + string(debug.Stack())}
+					}
+				}()
+				res = eng.Exec(rc, p)
+			}()
 			res.SchedSteps = s.Steps
 			res.Yields = s.Yields
 			res.VirtualMS = time.Since(start).Milliseconds()
